@@ -49,6 +49,20 @@ CLAIMED = {
         design_ref="DESIGN.md section 5 C09",
         note="Trusted: TLC, adapter projection (identity checks of parent links are computed in Python and judged in TLC). "
              "Rule payloads are fixed templates; serializer runs with keepEmptyRules=True."),
+    "C12": dict(
+        technique="TLA+ contract (GlobalsContract) + algorithm-layer machine of the error-mode switch (Globals.tla, deviation switch "
+                  "reproducing restore-without-finally and restore-to-construction-time-mode) checked by TLC; TLC-generated tour and "
+                  "simulated walks, each replayed in a freshly forked process; TLC trace monitor; probe battery compared with "
+                  "fresh-process reference",
+        text="Bounded exhaustive over call histories with injected faults: every explored transition of the (mode, parser objects, "
+             "preference assignment) machine - parser construction in both parse modes, six parse entry points x faults "
+             "(none, empty, malformed, undecodable bytes, throwing fetcher, missing file), rejected DOM edit, media query edit, "
+             "serialise, csscombine, preference changes - followed by a probe battery. TLC checks after every call that error mode, "
+             "preferences digest, profile verdict digest and serializer identity are as at call start, that the battery answers as "
+             "in a fresh process and that a parser object is reusable.",
+        design_ref="DESIGN.md section 5 C12",
+        note="Trusted: TLC, fork-per-behaviour isolation, the battery's sensitivity (its first item is a production-parser call that "
+             "exposes any token left over by an earlier call)."),
 }
 PENDING = "check not built yet in this round (see DESIGN.md section 10 build order); no claim is made"
 NOT_APPLICABLE = {}
